@@ -47,28 +47,37 @@ Definition produced_for (rs : list reg) (i : inst) (t : ty) (n : nat) (g : grp) 
       end
   end.
 
-Definition arg_ok (rs : list reg) (p : param) (a : aval) : bool :=
+(* lenient: some constructor failed in this step (an optional dependency whose construction failed stays zero) *)
+(* a group is handed out complete and in registration order *)
+Definition list_eqb_n := list_eqb Nat.eqb.
+Definition group_in_order (rs : list reg) (t : ty) (g : grp) (l : list inst) : bool :=
+  list_eqb_n (flat_map (fun i => match i with IObj rid _ _ _ => [rid] | IVoid => [] end) l)
+             (map r_id (filter (fun r => existsb (fun '(t', _, g', _) => (t' =? t) && (g' =? g)) (provides r)) rs)).
+Definition arg_ok (rs : list reg) (lenient : bool) (p : param) (a : aval) : bool :=
   match p, a with
   | PSkip, AZero => true
   | PSkip, _ => false
-  | PDep d, AZero => d_opt d                              (* only an optional dependency may stay zero *)
+  | PDep d, AZero =>
+      (* only an optional dependency may stay zero, and only when nothing is registered for it *)
+      d_opt d && (lenient || negb (existsb (fun r => existsb (fun '(t, n, g, _) => (t =? d_ty d) && (n =? d_name d) && (g =? d_group d)) (provides r)) rs))
   | PDep d, AInst i => (d_group d =? 0) && produced_for rs i (d_ty d) (d_name d) 0
   | PDep d, AList l => negb (d_group d =? 0) && forallb (fun i => produced_for rs i (d_ty d) 0 (d_group d)) l
+                       && group_in_order rs (d_ty d) (d_group d) l
   | PDep d, ACtx _ => (d_ty d =? T_CTX) && (d_name d =? 0)
   | PDep d, AScope _ => (d_ty d =? T_SCOPE) && (d_name d =? 0)
   | PDep d, AProv => (d_ty d =? T_PROV) && (d_name d =? 0)
   end.
-Fixpoint args_ok (rs : list reg) (ps : list param) (args : list aval) : bool :=
+Fixpoint args_ok (rs : list reg) (lenient : bool) (ps : list param) (args : list aval) : bool :=
   match ps, args with
   | [], [] => true
-  | p :: ps', a :: args' => arg_ok rs p a && args_ok rs ps' args'
+  | p :: ps', a :: args' => arg_ok rs lenient p a && args_ok rs lenient ps' args'
   | _, _ => false
   end.
-Definition event_wired (rs : list reg) (e : event) : bool :=
+Definition event_wired (rs : list reg) (lenient : bool) (e : event) : bool :=
   match e with
   | EvCtor rid _ args _ =>
       match find_reg rs rid with
-      | Some r => args_ok rs (snd (reg_params r)) args
+      | Some r => args_ok rs lenient (snd (reg_params r)) args
       | None => false
       end
   | _ => true
@@ -77,11 +86,11 @@ Definition event_wired (rs : list reg) (e : event) : bool :=
 (* C04, producer half: whatever is handed out for an identity was produced by a registration that
    provides exactly that identity, and every constructor argument likewise *)
 Definition step_produced (rs : list reg) (o : op) (s : list event * result) : bool :=
-  forallb (event_wired rs) (fst s) &&
+  forallb (event_wired rs (existsb (fun e => match e with EvCtor _ _ _ OOk => false | EvCtor _ _ _ _ => true | _ => false end) (fst s))) (fst s) &&
   match o, snd s with
   | OResolve _ _ t n, RVal (AInst i) => produced_for rs i t n 0
   | OResolve _ _ t n, RVal (AList _) => false
-  | OResolveGroup _ _ t g, RVal (AList l) => forallb (fun i => produced_for rs i t 0 g) l
+  | OResolveGroup _ _ t g, RVal (AList l) => forallb (fun i => produced_for rs i t 0 g) l && group_in_order rs t g l
   | _, _ => true
   end.
 Fixpoint all_steps (f : op -> list event * result -> bool) (ops : list op) (tr : trace) : bool :=
@@ -89,7 +98,6 @@ Fixpoint all_steps (f : op -> list event * result -> bool) (ops : list op) (tr :
   | o :: ops', s :: tr' => f o s && all_steps f ops' tr'
   | _, _ => true
   end.
-Definition holds_C04 (ops : list op) (tr : trace) : bool := all_steps (step_produced (regs_of ops)) ops tr.
 
 (* ================================================================ monitor state
    what a reader of the trace knows after each step, computed from operations and observed
@@ -175,6 +183,18 @@ Definition created_in_step (rs : list reg) (p owner_scope : nat) (evs : list eve
 Definition descendants_closed (ms : mstate) (p h : nat) : list (nat * nat) :=
   map (fun s => (si_p s, si_h s)) (filter (fun s => (si_p s =? p) && anc ms p h (si_h s)) (ms_scopes ms)).
 
+(* Remove(T) / RemoveKeyed(T, n): a registration providing exactly that identity disappears; a registration
+   under several As interfaces loses that one interface *)
+Definition single_output (r : reg) : bool :=
+  match r_form r with FInst _ | FCtor _ _ [_] _ => true | _ => false end.
+Definition with_as (r : reg) (ifs : list ty) : reg :=
+  mkReg (r_id r) (r_life r) (r_form r) (r_name r) (r_group r) ifs (r_script r) (r_dyn r) (r_cfail r) (r_bad r).
+Definition remove_identity (rs : list reg) (t : ty) (n : nat) : list reg :=
+  flat_map (fun rg =>
+              if provides_b rg t n 0 0 && (length (provides rg) =? 1) then []
+              else if single_output rg && (2 <=? length (r_as rg)) && existsb (Nat.eqb t) (r_as rg) && (r_name rg =? n) && (r_group rg =? 0)
+                   then [with_as rg (filter (fun i => negb (i =? t)) (r_as rg))]
+                   else [rg]) rs.
 Definition ms_step (ms : mstate) (o : op) (s : list event * result) : mstate :=
   let all_regs := ms_active ms in
   let '(evs, r) := s in
@@ -191,9 +211,9 @@ Definition ms_step (ms : mstate) (o : op) (s : list event * result) : mstate :=
   | OModules mods, RErr _ _ =>
       mkMS (ms_active ms) true (ms_nprov ms) (ms_regs_of_prov ms) (ms_built ms) (ms_scopes ms) (ms_closed ms) (ms_pclosed ms) (ms_scoped ms) (ms_handed ms) (ms_created ms) (ms_closed_insts ms)
   | ORemove t, _ =>
-      mkMS (filter (fun rg => negb (provides_b rg t 0 0 0) || negb (length (provides rg) =? 1)) (ms_active ms)) (ms_unsure ms) (ms_nprov ms) (ms_regs_of_prov ms) (ms_built ms) (ms_scopes ms) (ms_closed ms) (ms_pclosed ms) (ms_scoped ms) (ms_handed ms) (ms_created ms) (ms_closed_insts ms)
+      mkMS (remove_identity (ms_active ms) t 0) (ms_unsure ms) (ms_nprov ms) (ms_regs_of_prov ms) (ms_built ms) (ms_scopes ms) (ms_closed ms) (ms_pclosed ms) (ms_scoped ms) (ms_handed ms) (ms_created ms) (ms_closed_insts ms)
   | ORemoveKeyed t n, _ =>
-      mkMS (filter (fun rg => negb (provides_b rg t n 0 0) || negb (length (provides rg) =? 1)) (ms_active ms)) (ms_unsure ms) (ms_nprov ms) (ms_regs_of_prov ms) (ms_built ms) (ms_scopes ms) (ms_closed ms) (ms_pclosed ms) (ms_scoped ms) (ms_handed ms) (ms_created ms) (ms_closed_insts ms)
+      mkMS (remove_identity (ms_active ms) t n) (ms_unsure ms) (ms_nprov ms) (ms_regs_of_prov ms) (ms_built ms) (ms_scopes ms) (ms_closed ms) (ms_pclosed ms) (ms_scoped ms) (ms_handed ms) (ms_created ms) (ms_closed_insts ms)
   | OBuild _, RCount p =>
       let built := flat_map (fun e => match e with
                                       | EvCtor rid inv _ OOk => if is_life all_regs Singleton rid then [(p, rid, inv)] else []
@@ -251,7 +271,7 @@ Definition regs_for (ms : mstate) (p : nat) : list reg :=
 Definition op_prov (o : op) : option nat :=
   match o with
   | OCreateScope p _ _ | OResolve p _ _ _ | OResolveGroup p _ _ _ | OClose p _ _ | OCloseProvider p _
-  | OCtxValue p _ | OCtxDone p _ | OFromContext p _ => Some p
+  | OCtxValue p _ | OCtxDone p _ | OFromContext p _ | OStats p => Some p
   | _ => None
   end.
 Definition count_ctor (evs : list event) (rid : nat) : nat :=
@@ -363,6 +383,15 @@ Definition step_C03 (ms : mstate) (o : op) (s : list event * result) : bool :=
   end.
 Definition holds_C03 (ops : list op) (tr : trace) : bool := mon_fold step_C03 ms_init ops tr.
 
+(* ================================================================ C04 *)
+Definition step_C04 (ms : mstate) (o : op) (s : list event * result) : bool :=
+  let p := match o, snd s with OBuild _, RCount p => Some p | OBuild _, _ => Some (ms_nprov ms) | _, _ => op_prov o end in
+  match p with
+  | None => true
+  | Some p => step_produced (match o with OBuild _ => ms_active ms | _ => regs_for ms p end) o s
+  end.
+Definition holds_C04 (ops : list op) (tr : trace) : bool := mon_fold step_C04 ms_init ops tr.
+
 (* ================================================================ the dependency relation, read off the registrations *)
 Definition dep_matches (d : dep) (r' : reg) : bool :=
   existsb (fun '(t, n, g, _) => (t =? d_ty d) && (n =? d_name d) && (g =? d_group d)) (provides r').
@@ -384,7 +413,7 @@ Definition spec_missing (rs : list reg) : bool :=
   existsb (fun r => existsb (fun d => negb (d_opt d) && (d_group d =? 0) && negb (dep_builtin d) &&
                                       negb (existsb (dep_matches d) rs)) (reg_deps r)) rs.
 Definition spec_faulty (rs : list reg) : bool :=
-  existsb (fun r => existsb (fun k => match effective_outcome r k with OOk => false | _ => true end)
+  existsb (fun r => existsb (fun k => match effective_outcome r k with OOk => cancels r k | _ => true end)
                             (seq 0 (length (r_script r)))) rs
   || existsb (fun r => existsb (fun b => b) (r_cfail r)) rs.
 
@@ -462,7 +491,7 @@ Definition holds_C07 (ops : list op) (tr : trace) : bool := mon_fold step_C07 ms
 
 (* ================================================================ C08 *)
 Definition is_ctor_failure (r : result) : bool :=
-  match r with RErr (ECtorErr _) _ | RErr (ECtorPanic _) _ | RErr EValidation _ | RErr (EDisposal _) _ => true | _ => false end.
+  match r with RErr (ECtorErr _) _ | RErr (ECtorPanic _) _ | RErr EValidation _ | RErr (EDisposal _) _ | RErr ECancelled _ => true | _ => false end.
 Definition step_C08 (ms : mstate) (o : op) (s : list event * result) : bool :=
   match o with
   | OBuild _ =>
@@ -635,6 +664,10 @@ Definition clean_reg (r : reg) : bool :=
   (r_bad r =? 0) && ((r_name r =? 0) || (r_group r =? 0)) && negb (is_void r && negb (r_group r =? 0)) &&
   forallb (fun '(t, _, _, _) => negb (is_reserved t)) (provides r) &&
   match r_form r with FCtor _ _ (_ :: _ :: _) _ | FResult _ _ _ _ => true | f => forallb (implements (form_type f)) (r_as r) end.
+(* whatever runs or is handed out belongs to a registration the provider was built with *)
+Definition uses_only (rs : list reg) (s : list event * result) : bool :=
+  forallb (fun rid => existsb (fun rg => r_id rg =? rid) rs) (ctor_rids (fst s)) &&
+  forallb (fun i => match i with IObj rid _ _ _ => existsb (fun rg => r_id rg =? rid) rs | IVoid => true end) (handed_in_step s).
 Definition step_C17 (ms : mstate) (o : op) (s : list event * result) : bool :=
   let rs := ms_active ms in
   let r := snd s in
@@ -674,8 +707,10 @@ Definition step_C17 (ms : mstate) (o : op) (s : list event * result) : bool :=
   | OResolve p h t n =>
       (* a built provider is a snapshot: identities it was not built with stay unknown *)
       let prs := regs_for ms p in
-      spec_has prs t n || (is_reserved t && (n =? 0)) || (t =? T_NIL) ||
-      class_is r ENotFound || disposed_class r
+      (spec_has prs t n || (is_reserved t && (n =? 0)) || (t =? T_NIL) ||
+       class_is r ENotFound || disposed_class r)
+      && uses_only prs s
+  | OResolveGroup p _ _ _ | OCreateScope p _ _ => uses_only (regs_for ms p) s
   | _ => true
   end.
 Definition holds_C17 (ops : list op) (tr : trace) : bool := mon_fold step_C17 ms_init ops tr.
@@ -723,3 +758,23 @@ Fixpoint mon_first (f : mstate -> op -> list event * result -> bool) (n : nat) (
   | o :: ops', s :: tr' => if f ms o s then mon_first f (S n) (ms_step ms o s) ops' tr' else n
   | _, _ => 0
   end.
+
+(* ================================================================ C14 *)
+(* after a scope is closed nothing is held on its behalf: it is tracked by nobody, its tables are released, its
+   context is done; a failed scope creation leaves the bookkeeping as it was *)
+Definition open_count (ms : mstate) (p : nat) : nat :=
+  length (filter (fun s => (si_p s =? p) && negb (si_h s =? 0) && negb (scope_closed ms p (si_h s))) (ms_scopes ms)).
+Definition step_C14 (ms : mstate) (o : op) (s : list event * result) : bool :=
+  match o, snd s with
+  | OStats p, RStats tracked per =>
+      (if mem_nat p (ms_pclosed ms) then tracked =? 999 else tracked =? open_count ms p)
+      && forallb (fun '(h, (kids, cached, disp)) =>
+                    if scope_closed ms p h || mem_nat p (ms_pclosed ms)
+                    then (kids =? 999) && (cached =? 999) && (disp =? 0)
+                    else negb (kids =? 999) && negb (cached =? 999))
+                 (combine (seq 0 (length per)) per)
+  | OStats _, _ => false
+  | OCtxDone p h, RBool b => (h =? 0) || Bool.eqb b (scope_closed ms p h || mem_nat p (ms_pclosed ms)) || b
+  | _, _ => true
+  end.
+Definition holds_C14 (ops : list op) (tr : trace) : bool := mon_fold step_C14 ms_init ops tr && holds_C10 ops tr.
